@@ -46,6 +46,9 @@ pub fn run(ops: &[String]) -> Vec<String> {
 		let mut fixed_tps: Option<f64> = None; // speed known and constant
 		let mut expected: f64 = 0.0; // ideal ticks + fraction
 		let mut stop_pending = false;
+		// a case that sets a speed of 0 seconds per tick is an out-of-domain probe
+		let risky = case.iter().any(|l| l.contains("spt=0000000000000000"));
+		let mut speed_desc = String::new();
 		let mut pending_ticking: Option<bool> = None;
 		for l in &case[1..] {
 			let tok: Vec<&str> = l.split_whitespace().collect();
@@ -60,6 +63,7 @@ pub fn run(ops: &[String]) -> Vec<String> {
 				}
 				"new" => {
 					let v: Value<ClockSpeed> = parse_value(tok[1], &ids);
+					speed_desc = tok[1].to_string();
 					fixed_tps = match v {
 						Value::Fixed(s) => Some(tps(s)),
 						_ => None,
@@ -96,6 +100,7 @@ pub fn run(ops: &[String]) -> Vec<String> {
 					let (c, h) = cur.as_mut().unwrap();
 					let v: Value<ClockSpeed> = parse_value(tok[1], &ids);
 					h.set_speed(v, parse_tween(tok[2], &ids));
+					speed_desc = tok[1].to_string();
 					fixed_tps = None;
 					out.put(show(c, h));
 				}
@@ -119,6 +124,39 @@ pub fn run(ops: &[String]) -> Vec<String> {
 						expected = 0.0;
 						if c.state().is_some() {
 							out.oracle_fail("stop_resets", l);
+						}
+					}
+				}
+				"update" if risky => {
+					// out-of-domain probe (a speed of infinitely many ticks per second): run the update
+					// on a helper thread so that a tick loop that never ends is observed, not suffered
+					let (c, h) = cur.take().unwrap();
+					let dt = p64(tok[1]);
+					let st = info_state.clone();
+					let (tx, rx) = std::sync::mpsc::channel();
+					std::thread::spawn(move || {
+						let mut c = c;
+						let info = st.build();
+						let r = c.update(dt, &info);
+						let _ = tx.send((c, r));
+					});
+					match rx.recv_timeout(std::time::Duration::from_millis(500)) {
+						Ok((c, r)) => {
+							out.put(format!(
+								"{} {}",
+								r.map(|n| n.to_string()).unwrap_or_else(|| "-".into()),
+								show(&c, &h)
+							));
+							cur = Some((c, h));
+						}
+						Err(_) => {
+							out.oracle_fail("update_terminates", format!("{} {}", speed_desc, l));
+							out.put("fault hang");
+							let done = out.lines.len();
+							for _ in done..case.len() {
+								out.put("dead");
+							}
+							return;
 						}
 					}
 				}
